@@ -11,3 +11,18 @@ open XotModel.Props
 #print axioms C20_routes_compose
 #print axioms C20_inv_preserved
 #print axioms C20_fixed_init
+#print axioms C20_any_order
+#print axioms C20_any_order_conv
+#print axioms C20_any_order_content
+#print axioms C20_orders_agree
+#print axioms C20_orders_agree_at
+#print axioms C20_every_construction
+#print axioms C20_every_clean_construction
+#print axioms C20_spec_preserves_inv
+#print axioms C20_inv_along
+#print axioms C20_moveOk_is_the_check
+#print axioms C20_illformed_move_refused
+#print axioms C20_wellformed_move_ok
+#print axioms C20_refusal_exact
+#print axioms C20_init_inv
+#print axioms C20_progC_constructs
